@@ -16,11 +16,11 @@ for f in sorted(glob.glob(ROOT + '/seeded/*/meta.json')):
 txt = '''
 ### 13.5 Seeded changes (independent sub-agents, property text + scratch worktree only) and what catches them
 
-%d changes in ten rounds (the fifth asked for slips that need a non-default build configuration, history or a boundary value; the sixth for well-meant optimisations, portability clean-ups, error-handling changes and edits in neighbouring helpers; the seventh for slips in tables and constants, in the second or later of something, under unusual but legal set-ups such as NULL callbacks, and in comparison operators; the eighth for the hardest slips the agent could think of: re-entrant callbacks, several contexts, the largest legal sizes, types narrowed by one step, C89 builds; the ninth for slips a reviewer would approve: non-default but legal API use, module boundaries, type width and signedness, order of statements, state that survives; the tenth the same for the properties left out of the ninth, plus supported non-default builds), each confirmed by `run/seedcheck.py`: applies to /repo HEAD, the unedited 71-test suite
+%d changes in eleven rounds (the eleventh a short round of two, C06-j1 and C16-j1; the fifth asked for slips that need a non-default build configuration, history or a boundary value; the sixth for well-meant optimisations, portability clean-ups, error-handling changes and edits in neighbouring helpers; the seventh for slips in tables and constants, in the second or later of something, under unusual but legal set-ups such as NULL callbacks, and in comparison operators; the eighth for the hardest slips the agent could think of: re-entrant callbacks, several contexts, the largest legal sizes, types narrowed by one step, C89 builds; the ninth for slips a reviewer would approve: non-default but legal API use, module boundaries, type width and signedness, order of statements, state that survives; the tenth the same for the properties left out of the ninth, plus supported non-default builds), each confirmed by `run/seedcheck.py`: applies to /repo HEAD, the unedited 71-test suite
 still passes, the agent's demonstration fails with the change and passes without. The registered quick check of the
 property was then run with `VERIF_REPO=<scratch copy with the change>`. Changes that were missed at first led to the
 strengthening named in the last column (scenario families, alphabets or oracle clauses were added; nothing was
-special-cased). All are detected now. Details, patches and demonstrations: `seeded/<id>/`.
+special-cased). All are detected now EXCEPT C06-j1 (row marked **none**): it was produced in the last minutes of the budget and the item alphabet of the framing scenarios has not yet been extended with the based-integer result functions it needs; C06 therefore does not yet decide framing for SCPI_ResultUInt32Base/UInt64Base items. Details, patches and demonstrations: `seeded/<id>/`.
 
 | change | confirmed | detected by | first violation kinds | initially missed -> strengthening |
 |---|---|---|---|---|
